@@ -75,6 +75,7 @@ type View struct {
 	Delayed   []string                       // purged_unstake_<h><raw V> keys (pending penalty application)
 	Balance   map[string]*big.Int            // b_<addr>_OLT
 	Requests  map[string]string              // es__ark_<id> -> accused address
+	Votes     map[string]int64               // es__scv: signatures per validator address inside the counting window
 	Bad       []string                       // keys of these families that could not be decoded
 }
 
@@ -95,7 +96,7 @@ func Decode(dump []harness.KV) *View {
 	v := &View{Vals: map[string]*ValRec{}, Frozen: map[string]*FrozenRec{}, Status: map[string]*StatusRec{},
 		Total: map[string]*big.Int{}, Locked: map[string]map[string]*big.Int{}, Effective: map[string]*big.Int{},
 		Bounded: map[string]*big.Int{}, Queue: map[int64][]Maturing{}, Purged: map[string]int64{},
-		Balance: map[string]*big.Int{}, Requests: map[string]string{}}
+		Balance: map[string]*big.Int{}, Requests: map[string]string{}, Votes: map[string]int64{}}
 	var luh int64 = -1
 	opts := map[string][]byte{}
 	for _, kv := range dump {
@@ -159,6 +160,15 @@ func Decode(dump []harness.KV) *View {
 				continue
 			}
 			v.Status[k[len("es__vss_"):]] = &StatusRec{Active: r.IsActive, Height: r.Height}
+		case k == "es__scv":
+			var r struct{ Addresses map[string]int64 }
+			if err := json.Unmarshal(kv.V, &r); err != nil {
+				v.Bad = append(v.Bad, k)
+				continue
+			}
+			for a, n := range r.Addresses {
+				v.Votes[strings.ToLower(a)] = n
+			}
 		case strings.HasPrefix(k, "es__ark_"):
 			var r struct{ MaliciousAddress string }
 			_ = json.Unmarshal(kv.V, &r)
